@@ -24,7 +24,7 @@ Override(ov, i) == CSeqSet((CHOOSE p \in CSeqSet(ov) : p[1] = i)[2])
 Allowed(nds, ov, i, d) == IF HasOverride(ov, i) THEN d \in Override(ov, i) ELSE AllowedSpec(nds[i], d)
 \* finite upper bound of the allowed degrees of node i, or -1 when open-ended
 MaxAllowed(nds, ov, i) ==
-    IF HasOverride(ov, i) THEN (CHOOSE m \in Override(ov, i) : \A d \in Override(ov, i) : d <= m)
+    IF HasOverride(ov, i) THEN (IF Override(ov, i) = {} THEN 0 ELSE CHOOSE m \in Override(ov, i) : \A d \in Override(ov, i) : d <= m)
     ELSE IF nds[i].dl # <<>> THEN (CHOOSE m \in CSeqSet(nds[i].dl) : \A d \in CSeqSet(nds[i].dl) : d <= m)
     ELSE nds[i].dmax
 
